@@ -97,6 +97,57 @@ def _dotted(node):
 dotted = _dotted
 
 
+def canon_single_use_tests(tree):
+    """Canonicalisation applied to every module before analysis: a local that is assigned once, immediately before an
+    `if`, and read exactly once - in that `if`'s test - is substituted back into the test (`t = E; if t:` == `if E:`).
+    Keeps every rule independent of whether a condition was hoisted into a temporary."""
+    n_inl = 0
+    for f in ast.walk(tree):
+        if not isinstance(f, (ast.FunctionDef, ast.AsyncFunctionDef)):
+            continue
+        loads, stores = {}, {}
+        for n in ast.walk(f):
+            if isinstance(n, ast.Name):
+                d = loads if isinstance(n.ctx, ast.Load) else stores
+                d[n.id] = d.get(n.id, 0) + 1
+            elif isinstance(n, (ast.Global, ast.Nonlocal)):
+                for x in n.names:
+                    stores[x] = stores.get(x, 0) + 2
+            elif isinstance(n, ast.arg):
+                stores[n.arg] = stores.get(n.arg, 0) + 1
+        cands = {v for v in stores if stores[v] == 1 and loads.get(v, 0) == 1}
+        if not cands:
+            continue
+        for n in ast.walk(f):
+            for fld in ("body", "orelse", "finalbody"):
+                blk = getattr(n, fld, None)
+                if not (isinstance(blk, list) and blk and isinstance(blk[0], ast.stmt)):
+                    continue
+                i = 0
+                while i + 1 < len(blk):
+                    a, b = blk[i], blk[i + 1]
+                    if (isinstance(a, ast.Assign) and len(a.targets) == 1 and isinstance(a.targets[0], ast.Name)
+                            and a.targets[0].id in cands and isinstance(b, ast.If)):
+                        v = a.targets[0].id
+                        occ = [x for x in ast.walk(b.test) if isinstance(x, ast.Name) and x.id == v]
+                        if len(occ) == 1 and not any(isinstance(x, (ast.Lambda, ast.ListComp, ast.GeneratorExp, ast.SetComp, ast.DictComp))
+                                                     for x in ast.walk(b.test)):
+                            b.test = _Subst(v, a.value).visit(b.test)
+                            del blk[i]
+                            n_inl += 1
+                            continue
+                    i += 1
+    return n_inl
+
+
+class _Subst(ast.NodeTransformer):
+    def __init__(self, name, value):
+        self.name, self.value = name, value
+
+    def visit_Name(self, node):
+        return self.value if node.id == self.name else node
+
+
 class Program:
     def __init__(self, repo="/repo", pkg_rel="src/vsc", pkg="vsc"):
         self.repo = repo
@@ -135,6 +186,7 @@ class Program:
                     tree = ast.parse(raw, filename=p)
                 except SyntaxError as e:
                     raise AnalysisError("module %s does not parse: %s" % (rel, e))
+                canon_single_use_tests(tree)
                 m = Module(name, p, rel, tree, raw.decode("utf-8", "replace"))
                 self.modules[name] = m
         self.digest = h.hexdigest()
